@@ -99,6 +99,14 @@ def main():
         if pid in CLAIMED:
             sec, tech, text, note = CLAIMED[pid]
             cat = "proof" if pid == "C18" else "other"
+            # the rule set as built (taken from the checker's own explanation in the last evidence file), so the
+            # claim always names the rules that actually run, including the clauses added after seeded changes
+            try:
+                ev = json.load(open(os.path.join(VERIF, "evidence", pid + ".json")))
+                text = text + " Rules as built (from the checker): " + ev["coverage"]["explanation"]
+            except Exception:
+                pass
+            note = note + " See DESIGN.md §9 (rule inventory as built, seeded changes caught/missed, thorough tier)."
             checks.append({
                 "property_id": pid,
                 "quick_cmd": "./check.sh %s quick" % pid,
